@@ -729,3 +729,46 @@ def rule_cursor_threaded(db, chk, cfg, rule="LAYOUT.cursor"):
     if n < 2:
         raise AnalysisBroken("LAYOUT.cursor: only %d calls of cursor-taking writers found" % n)
     return n
+
+
+# ---------------------------------------------------------------------------
+# FORWARD.native: an exported twin calls its own native operation, not its sibling's
+# ---------------------------------------------------------------------------
+
+TWINS = [("RectClip", "RectClipLines"), ("MinkowskiSum", "MinkowskiDiff")]
+
+
+def rule_native_twin(db, chk, cfg, exported, rule="FORWARD.native"):
+    """The export header offers pairs of operations with identical signatures (RectClip / RectClipLines, MinkowskiSum /
+    MinkowskiDiff).  Parameter forwarding cannot tell the members of a pair apart, so the callee is checked: the exported function
+    named X64 / XD uses the native X (a function X or a class X64) and does not use its twin."""
+    n = 0
+    for f in exported:
+        base = re.sub(r"(64|D)$", "", f.name)
+        twin = None
+        for a, b in TWINS:
+            if base == a:
+                twin = b
+            elif base == b:
+                twin = a
+        if twin is None:
+            continue
+        used = set()
+        for x in walk(f.body):
+            k = x.get("kind")
+            if k in ("CallExpr", "CXXMemberCallExpr"):
+                used.add(db.callee(x)[0])
+            if k in ("CXXConstructExpr", "CXXTemporaryObjectExpr", "VarDecl"):
+                t = (dqt(x) or qt(x) or "").replace("class ", "").replace("Clipper2Lib::", "").replace("const ", "").strip()
+                used.add(t)
+        own = {base, base + "64"} & used
+        other = {twin, twin + "64"} & used
+        n += 1
+        ok = bool(own) and not other
+        chk.instance(rule, {"export": f.name, "native_used": sorted(own), "twin_used": sorted(other), "cfg": cfg}, ok=ok)
+        if not ok:
+            chk.violation(rule, f.qual, f.name, "exported %s %s: the caller gets the result of the other operation of the pair"
+                          % (f.name, ("uses %s" % ", ".join(sorted(other))) if other else ("does not use the native %s / %s64" % (base, base))), f.where, cfg=cfg)
+    if n < 6:
+        raise AnalysisBroken("%s: only %d exported twin operations found (configuration %s)" % (rule, n, cfg))
+    return n
